@@ -1815,6 +1815,11 @@ impl TypeLayout {
         let lhs = lhs.disregard_optional()?;
         let other = other.disregard_optional()?;
 
+        // a present optional is the plain value it holds: `T? == T` is compared like `T == T`
+        if matches!(op, Eq | Neq) && lhs == other && lhs.supports_equ() {
+            return Some(TypeLayout::Native(NativeType::Bool));
+        }
+
         match op {
             Op::Is => return Some(TypeLayout::Native(NativeType::Bool)),
             Op::AddAssign => return lhs.get_output_type(other, &Op::Add, flags),
